@@ -44,7 +44,21 @@ func cmdPoll(args []string) {
 		r := &rng{s: sd}
 		max := 1 + r.intn(4)
 		v := poll.NewVerif(max)
-		cases := []term{C("PInit", N(max))}
+		cases := []term{}
+		// the address a long-poll request names, through the production HTTP handler (paths begin with a slash, as
+		// every server-side URL path does)
+		for k := 0; k < 6; k++ {
+			g := pick(r, []string{"g", "foo", "workers:2", "a b", ""})
+			tail := pick(r, []string{"/a", "/a/", "/a/b", "/", "", "/a//b/", "//", "/%2F", "/a b"})
+			path := "/" + g + tail
+			gg, ii, reg, _ := poll.VerifPath(path)
+			var obs term
+			if reg {
+				obs = Some(P(S(gg), S(ii)))
+			}
+			cases = append(cases, C("PPath", S(path), obs))
+		}
+		cases = append(cases, C("PInit", N(max)))
 		stats := map[string]int{}
 		var handles []*poll.VerifConn
 		rowsT := func() term {
